@@ -53,8 +53,15 @@ def writer_layouts(prog):
         fi = prog.find_method(ci, meth) if ci is not None else None
         return fi.node if fi is not None else None
 
+    # small helpers the formatter may call: functions of its module, methods of its class (called on self, on the class)
+    helpers = {n.name: n for n in prog.module("structures.py").tree.body if isinstance(n, ast.FunctionDef) and len(n.body) <= 16}
+    for cdef in [n for n in prog.module("structures.py").tree.body if isinstance(n, ast.ClassDef) and n.name == "Atom"]:
+        for m in cdef.body:
+            if isinstance(m, ast.FunctionDef) and len(m.body) <= 16 and m.name not in ("get_common_string_rep", "get_pqr_string", "get_pdb_string", "__init__", "__str__"):
+                for pre in ("self", "Atom", "cls"):
+                    helpers[f"{pre}.{m.name}"] = m
     eng = Layout(DOMAINS, source_of, consts={k: v for k, v in prog.module_env("structures.py").items() if isinstance(v, (int, str, dict))},
-                 method_of=method_of)
+                 method_of=method_of, helpers=helpers)
     body = [s for s in common.body if not (isinstance(s, ast.Expr) and isinstance(s.value, ast.Constant))]
     states = eng.run(body)
     finals = []
@@ -62,7 +69,20 @@ def writer_layouts(prog):
     first = pbody[0]
     if not (isinstance(first, ast.Assign) and isinstance(first.value, ast.Call)
             and U(first.value.func) == "self.get_common_string_rep"):
-        raise AnalysisError("get_pqr_string: does not start from self.get_common_string_rep(...)")
+        # any other way of putting the line together: the common part is followed like every other helper of the formatter
+        calls_common = [c for c in calls_in(pqr) if U(c.func) == "self.get_common_string_rep"]
+        if not calls_common:
+            raise AnalysisError("get_pqr_string: does not use self.get_common_string_rep(...)")
+        for c in calls_common:
+            kw = {k.arg: U(k.value) for k in c.keywords}
+            if kw.get("chainflag", U(c.args[0]) if c.args else None) != "chainflag":
+                raise AnalysisError("get_pqr_string: chainflag is not forwarded to get_common_string_rep")
+        eng.helpers["self.get_common_string_rep"] = common
+        for f in eng.run(pbody):
+            if not f.done or not isinstance(f.result, AStr):
+                raise AnalysisError("get_pqr_string: a path does not return a string layout")
+            finals.append(f)
+        return eng, finals
     kw = {k.arg: U(k.value) for k in first.value.keywords}
     if kw.get("chainflag", U(first.value.args[0]) if first.value.args else None) != "chainflag":
         raise AnalysisError("get_pqr_string: chainflag is not forwarded to get_common_string_rep")
